@@ -63,7 +63,7 @@ ASSUMPTIONS = [
 ]
 TRUSTED_BASE = ['vf/sim/fake_hl.py (provenance-propagating engine fake, fake FS with overwrite/_SUCCESS semantics)']
 SHARDS = {'quick': 4, 'thorough': 16}
-TIMEOUT = {'quick': 600, 'thorough': 2400}
+TIMEOUT = {'quick': 1500, 'thorough': 3600}
 
 
 def FLOORS(tier):
